@@ -66,7 +66,7 @@ func acceptable(block *hg.Block, frame *hg.Frame) (bool, string) {
 var ffTamperOps = []string{
 	"none", "none",
 	"body-index", "body-round", "body-timestamp", "body-statehash", "body-framehash", "body-peershash", "body-tx-append", "body-tx-alter", "body-itx-append", "body-receipts",
-	"sigs-remove-to-threshold", "sigs-remove-one", "sigs-other-body", "sigs-add-stranger", "sigs-only-strangers", "sigs-reencode-lower", "sigs-reencode-prefix", "sigs-none",
+	"sigs-remove-to-threshold", "sigs-remove-one", "sigs-other-body", "sigs-add-stranger", "sigs-only-strangers", "sigs-below-threshold-plus-strangers", "sigs-reencode-lower", "sigs-reencode-prefix", "sigs-none",
 	"frame-round", "frame-peers-reorder", "frame-peers-drop", "frame-peers-add", "frame-root-drop", "frame-root-event-field", "frame-root-annotation",
 	"frame-event-drop", "frame-event-tx", "frame-event-annotation", "frame-peersets", "frame-timestamp",
 }
@@ -154,6 +154,21 @@ func (c *Cluster) tamperFF(op string, block *hg.Block, frame *hg.Frame, r *RNG) 
 	case "sigs-only-strangers":
 		block.Signatures = map[string]string{}
 		for i := 0; i < n+1; i++ {
+			st := deriveKey(c.seed, 700+i)
+			bs, _ := block.Sign(st)
+			block.Signatures[bs.ValidatorHex()] = bs.Signature
+		}
+	case "sigs-below-threshold-plus-strangers":
+		// one member signature too few, topped up with outsiders' signatures over the same body
+		ks := sigKeys()
+		if len(ks) == 0 || need < 2 {
+			return false
+		}
+		for len(ks) > need-1 {
+			delete(block.Signatures, ks[len(ks)-1])
+			ks = ks[:len(ks)-1]
+		}
+		for i := 0; i < n; i++ {
 			st := deriveKey(c.seed, 700+i)
 			bs, _ := block.Sign(st)
 			block.Signatures[bs.ValidatorHex()] = bs.Signature
@@ -315,6 +330,14 @@ func (c *Cluster) ensureObserver(fresh bool) *SimNode {
 	return o
 }
 
+// ffTriple is a response the observer has adopted (kept so that later steps can
+// offer tampered copies of the very same pair to the very same node).
+type ffTriple struct {
+	block    hg.Block
+	frame    hg.Frame
+	snapshot []byte
+}
+
 func (c *Cluster) byzFFStep(s *Step) {
 	r := c.inner
 	byz := c.byzNode()
@@ -349,6 +372,19 @@ func (c *Cluster) byzFFStep(s *Step) {
 		block.Signatures = map[string]string{}
 	}
 	snapshot, _ := server.app.GetSnapshot(block.Index())
+	replayed := false
+	if c.ffAccepted != nil && c.observer != nil && c.observer.running() && r.Bool(0.6) {
+		// the pair the observer adopted earlier, offered to it again with one field tampered
+		block, frame = hg.Block{}, hg.Frame{}
+		cloneJSON(&c.ffAccepted.block, &block)
+		cloneJSON(&c.ffAccepted.frame, &frame)
+		if block.Signatures == nil {
+			block.Signatures = map[string]string{}
+		}
+		snapshot = c.ffAccepted.snapshot
+		replayed = true
+		c.stats.probe("ff-attempt-on-previously-adopted-pair")
+	}
 	op := ffTamperOps[s.N%len(ffTamperOps)]
 	if s.Kind == "forge-set" {
 		op = "forged-validator-set"
@@ -365,8 +401,10 @@ func (c *Cluster) byzFFStep(s *Step) {
 	c.stats.probe("ff-attempt:" + op)
 
 	victim := c.ensureObserver(false)
-	nodeLevel := s.B == 1 && byz != nil
-	if s.B == 2 {
+	// Node.fastForward asks every peer the node knows: only a fresh observer
+	// (which knows nobody but the forger) is sure to be answered by the forger
+	nodeLevel := s.B == 1 && byz != nil && c.ffAccepted == nil
+	if s.B == 2 && !replayed {
 		// a running honest node as victim: only for responses that must be refused
 		if ok {
 			return
@@ -383,7 +421,7 @@ func (c *Cluster) byzFFStep(s *Step) {
 		victim = cands[r.Intn(len(cands))]
 	}
 	before := c.digest(victim)
-	c.hostile = true
+	c.hostile, c.hostileSeen = true, true
 	var err error
 	if nodeLevel && victim.isObserver && victim.state() == _state.CatchingUp {
 		resp := &net.FastForwardResponse{FromID: byz.id, Block: block, Frame: frame, Snapshot: snapshot}
@@ -397,6 +435,7 @@ func (c *Cluster) byzFFStep(s *Step) {
 		delete(c.net.responders, byz.addr)
 		if err != nil && strings.Contains(err.Error(), "getBestFastForwardResponse returned nil") {
 			// block index 0 is never chosen by getBestFastForwardResponse: not a verdict
+			c.ffAccepted = nil
 			c.ensureObserver(true)
 			return
 		}
@@ -431,7 +470,16 @@ func (c *Cluster) byzFFStep(s *Step) {
 		}
 	}
 	if victim.isObserver && (err == nil || before.all() != after.all()) {
-		c.ensureObserver(true)
+		if ok && err == nil && r.Bool(0.6) {
+			// keep this observer: it has adopted a valid pair, remember which
+			t := &ffTriple{snapshot: snapshot}
+			cloneJSON(&block, &t.block)
+			cloneJSON(&frame, &t.frame)
+			c.ffAccepted = t
+		} else {
+			c.ffAccepted = nil
+			c.ensureObserver(true)
+		}
 	}
 }
 
